@@ -92,7 +92,14 @@ pub struct ClientScn {
     pub spurious_permille: u32,
     /// 0 none, 1 fmt-to-sink, 2 OpenTelemetry SDK layer
     pub subscriber: u8,
+    /// Run for simulated years (deadlines beyond a single timer's span).
+    #[serde(default)]
+    pub long: bool,
 }
+
+/// 780 days: below the 2^36 ms (795 days) range of a tokio timer; a paused runtime does not
+/// advance correctly past a sleep registered beyond that range (probed outside tarpc).
+pub const LONG_HORIZON_MS: u64 = 780 * 86_400_000;
 
 impl ClientScn {
     pub fn valid(&self) -> bool {
@@ -256,6 +263,24 @@ pub fn gen(rng: &mut Rng, focus: Focus) -> ClientScn {
         Focus::Extreme => rng.below(3) as u8,
         _ => 0,
     };
+    let long = focus == Focus::Extreme && rng.chance(250);
+    if long {
+        // a few never-answered calls whose deadlines lie years ahead
+        calls.truncate(2);
+        for c in calls.iter_mut() {
+            c.deadline = Dl::Secs(*rng.pick(&[400u64, 700, 1278, 1500, 3650]) * 86_400);
+            c.abandon = None;
+            c.start_ms = 0;
+        }
+        plans.clear();
+        plans.push(vec![]);
+        plans.push(vec![]);
+        stalls.clear();
+        unsolicited.clear();
+        drop_handles_at = None;
+        kill_dispatch_at = None;
+        peer_eof_at = None;
+    }
     let mut faults = vec![];
     if focus == Focus::Faults {
         use crate::transport::{FaultAt, Op2};
@@ -270,7 +295,7 @@ pub fn gen(rng: &mut Rng, focus: Focus) -> ClientScn {
     ClientScn {
         max_in_flight,
         pending_buf,
-        link: LinkCfg { cap, coupled, faults },
+        link: LinkCfg { cap, coupled, sticky: faults.is_empty() || rng.chance(600), faults },
         stalls,
         handles,
         calls,
@@ -279,9 +304,10 @@ pub fn gen(rng: &mut Rng, focus: Focus) -> ClientScn {
         drop_handles_at,
         kill_dispatch_at,
         peer_eof_at,
-        preempt_permille: if subscriber != 0 { 0 } else { *rng.pick(&[0u32, 0, 60, 250]) },
+        preempt_permille: if subscriber != 0 || long { 0 } else { *rng.pick(&[0u32, 0, 60, 250]) },
         spurious_permille: 0,
         subscriber,
+        long,
     }
 }
 
@@ -295,6 +321,9 @@ fn dl_duration(d: &Dl) -> Option<Duration> {
 }
 
 pub fn horizon_ms(s: &ClientScn) -> u64 {
+    if s.long {
+        return LONG_HORIZON_MS;
+    }
     let mut h = 100u64;
     for c in &s.calls {
         let d = match &c.deadline {
